@@ -67,7 +67,7 @@ func (s *Service) getEntryCommandHandler(conn redcon.Conn, cmd redcon.Command) {
 	e.key = getEntryCmd.Key
 	e.hkey = partitions.HKey(getEntryCmd.DMap, getEntryCmd.Key)
 	e.kind = kind
-	nt, err := dm.getOnFragment(e)
+	nt, err := dm.getRawOnFragment(e)
 	if err == errFragmentNotFound {
 		err = ErrKeyNotFound
 	}
